@@ -34,6 +34,24 @@ def _real_create(job):
             "recipe": [[a, b] for a, b in r], "full": bool(full)}
 
 
+def _real_create_history(jobs):
+    """the same calls issued one after the other on ONE factory (as a Glycan does for its residues): create is a function of its
+    arguments, earlier calls must not show"""
+    from glyles.glycans.factory.factory import MonomerFactory
+    fac = MonomerFactory()
+    out = []
+    for rec, config in jobs:
+        r = copy.deepcopy(rec)
+        try:
+            m, full = fac.create(r, config, tree_only=True)
+            out.append({"kind": "ok", "smiles": m.get_smiles() if hasattr(m, "get_smiles") else m.smiles, "name": m.get_name(),
+                        "config": int(m.get_config().value), "isomer": int(m.get_isomer().value), "lactole": int(m.get_lactole().value),
+                        "recipe": [[a, b] for a, b in r], "full": bool(full)})
+        except Exception as e:
+            out.append({"kind": "raises", "exc": type(e).__name__})
+    return out
+
+
 def run(rep, tier, driver, names):
     if driver is None:
         return
@@ -76,4 +94,30 @@ def run(rep, tier, driver, names):
             bad += 1
             if bad <= 3:
                 rep.broken.append("create model: %r vs code %r on recipe %r config %r" % (a, r, rec, cfg))
-    rep.extra["create_model"] = {"recipes_compared": len(jobs), "agree": n_same, "disagree": bad}
+    # histories on one factory: every recipe with its three configs back to back, in chunks of 12 calls
+    import random as _random
+    hr = _random.Random(len(jobs))
+    hjobs = [jobs[i] for i in hr.sample(range(len(jobs)), min(len(jobs), 600 if tier == "quick" else 6000))]
+    extra = []
+    for rec, cfg in hjobs[:200]:
+        for c2 in ("a", "", "b", "a"):
+            extra.append((rec, c2))
+    hjobs = extra + hjobs
+    chunks = [hjobs[i:i + 12] for i in range(0, len(hjobs), 12)]
+    fresh = {}
+    for (rec, cfg), r in zip(jobs, real):
+        fresh[(tuple(map(tuple, rec)), cfg)] = r
+    hist = pmap(_real_create_history, chunks, chunk=4)
+    hbad = hn = 0
+    for ch, outs in zip(chunks, hist):
+        for (rec, cfg), o in zip(ch, outs):
+            ref = fresh.get((tuple(map(tuple, rec)), cfg))
+            if ref is None:
+                continue
+            hn += 1
+            rep.count("create-history-compared")
+            if o != ref:
+                hbad += 1
+                if hbad <= 3:
+                    rep.broken.append("create on a used factory differs from create on a fresh one (the Model is a function of its arguments): recipe %r config %r: %r vs %r" % (rec, cfg, o, ref))
+    rep.extra["create_model"] = {"recipes_compared": len(jobs), "agree": n_same, "disagree": bad, "calls_on_used_factories": hn, "history_dependent": hbad}
